@@ -192,7 +192,9 @@ def run(ctx, replay):
     else:
         behs = []
         # delay-bounded schedules out of TLC (as the code is, so that the window is covered)
-        gens = [(1, (0,), (("p1",),)), (2, (0,), (("p1",),))]
+        gens = [(2, (0,), (("p1",),))]
+        if thorough:
+            gens += [(1, (0,), (("p1",),))]
         if thorough:
             gens += [(2, (0, 1), (("p1",), ()))]
         tlc_behs = []
@@ -209,8 +211,11 @@ def run(ctx, replay):
         if not tlc_behs:
             raise vlib.Infra("TLC produced no schedules")
         pick = tlc_behs if thorough else vlib.sample(ctx.rng, tlc_behs, 150)
-        for b in map(scale, pick):
-            modes = ["wheel", "queue"] if all(v == 0 for v in b["cfg"]["due"].values()) else ["wheel"]
+        nq = 0
+        for i, b in enumerate(map(scale, pick)):
+            modes = ["wheel"]
+            if all(v == 0 for v in b["cfg"]["due"].values()) and (not thorough or i % 5 == 0):
+                modes.append("queue")       # thorough: every schedule on the wheel, every 5th also on the queue
             for mode in modes:
                 c = dict(b["cfg"], mode=mode)
                 behs.append({"cfg": c, "pol": "list", "sched": b["sched"], "src": "tlc"})
@@ -222,9 +227,9 @@ def run(ctx, replay):
                 for i in range(horizon):
                     behs.append({"cfg": sc, "pol": "db", "delays": [i], "selrot": rot, "src": "db"})
             pairs = [(i, j) for i in range(horizon) for j in range(i + 1, horizon)]
-            for (i, j) in (pairs if thorough else vlib.sample(ctx.rng, pairs, 40)):
+            for (i, j) in vlib.sample(ctx.rng, pairs, 400 if thorough else 40):
                 behs.append({"cfg": sc, "pol": "db", "delays": [i, j], "selrot": (i + j) % 3, "src": "db"})
-            for k in range(400 if thorough else 30):
+            for k in range(150 if thorough else 30):
                 behs.append({"cfg": sc, "pol": "rand", "seed": ctx.rng.randrange(1 << 30), "src": "rand"})
         for i, b in enumerate(behs):
             b["id"] = i + 1
@@ -261,7 +266,8 @@ def run(ctx, replay):
 
     tcfg = cfg(4, (0,), ((),), ("TRUE",), (1,), 1, devs=dev_names, spec="TSpec", rd=SCALE,
                tail="CHECK_DEADLOCK FALSE\nPOSTCONDITION Post\n")
-    verdicts = validate_parallel(ctx, "TimeWheelTrace", [project(e) for e in events], tcfg, batch=150)
+    verdicts = validate_parallel(ctx, "TimeWheelTrace", [project(e) for e in events], tcfg, batch=150,
+                                 par=8 if thorough else 6)
     by_t = {}
     for e in events:
         by_t.setdefault(e["t"], []).append(e)
